@@ -32,6 +32,35 @@ def ask_sequence(c, cache_size=1024, storage='memory'):
     return answers, before_p == after_p, before_q == after_q
 
 
+FIELDS = (('subjects', 'subject'), ('resources', 'resource'), ('actions', 'action'))
+
+
+def mixed_tags(rng, pols, inqs):
+    """one policy set, two delimiter pairs: a string policy gets a twin of another Policy class (other tags) holding the
+    very same phrases; one phrase ends in the twin's closing tag, so it is balanced for one class and malformed for
+    the other.  What one class makes of a phrase must not leak into what the other makes of it."""
+    import copy
+    alt = rng.choice([['{', '}'], ['{', '}'], ['«', '»']])
+    cands = [i for i, p in enumerate(pols) if p.get('tags', ['<', '>']) == ['<', '>'] and
+             all(e[0] == 's' for f, _ in FIELDS for e in p[f]) and any(p[f] for f, _ in FIELDS)]
+    if not cands:
+        return
+    i = rng.choice(cands)
+    p = pols[i]
+    f, name = rng.choice([(f, n) for f, n in FIELDS if p[f]])
+    j = rng.randrange(len(p[f]))
+    p[f] = list(p[f])
+    p[f][j] = ['s', p[f][j][1] + alt[1]]
+    twin = copy.deepcopy(p)
+    twin['uid'] = 'twin%d' % i
+    twin['tags'] = alt
+    twin['effect'] = rng.choice(['allow', 'deny'])
+    pols.insert(i + rng.choice([0, 1]), twin)
+    for q in inqs:
+        if isinstance(q.get(name), str) and rng.random() < 0.7:
+            q[name] = q[name] + alt[1]
+
+
 class HistoryStream(Stream):
     name = 'inquiry_histories'
     imports = guardlib.GUARD_IMPORTS
@@ -61,6 +90,8 @@ class HistoryStream(Stream):
                     q['context'] = None
                 inqs.append(q)
             order = [rng.randrange(len(inqs)) for _ in range(rng.randint(2, maxlen))]
+            if ck == 'CRegex' and rng.random() < 0.3:
+                mixed_tags(rng, sc['policies'], inqs)
             yield {'checker': ck, 'policies': sc['policies'], 'rxtable': table, 'inquiries': inqs, 'order': order}
 
     def emit(self, c):
@@ -122,7 +153,7 @@ ASSUME = ['custom checkers / rules that keep state of their own are outside the 
 
 def main(argv):
     return run_check('C16', [HistoryStream()], argv, trusted_base=TRUSTED, assumptions=ASSUME,
-                     translated=('checker', 'parser', 'guard', 'policy', 'pin_rules', 'pin_util'))
+                     translated=('checker', 'parser', 'guard', 'policy', 'rules', 'pin_rules', 'pin_util'))
 
 
 if __name__ == '__main__':
